@@ -125,6 +125,16 @@ pub fn gen_sdt(r: &mut Rng, tier: &str, emit: &mut dyn FnMut(String)) {
         for _ in 0..nops { l.push_str(" ; "); l.push_str(&op(r, &mut cur, &offs)); }
         emit(l);
     }
+    // large uniform payloads (slices well beyond any word / lane / block size, filled with high bytes):
+    // appended as one slice, written as one slice, pushed through the sink's `vec`, then a few small ops
+    for n in [1016usize, 1024, 1032, 2048, 2056, 4096] {
+        for fill in [0xffu8, 0x80, 0xfe, 0x01] {
+            let blob = hex(&vec![fill; n]);
+            emit(format!("{} ; as={} ; a8=1 ; w8=40.7 ; kb=9", hdr(r, 36), blob));
+            emit(format!("{} ; kv={} ; a32=5 ; ck", hdr(r, 40), blob));
+            emit(format!("{} ; ws=36.{} ; a8=3", hdr(r, 36 + n as u64), blob));
+        }
+    }
     // overflowing offsets
     for o in [u64::MAX, u64::MAX - 3, 1u64 << 63, 1u64 << 32] {
         emit(format!("{} ; w32={}.1 ; ws={}.0102 ; w8={}.7", hdr(r, 40), o, o, o));
